@@ -20,7 +20,15 @@ def gen_tree(rnd, depth, lists_only=False):
     if r < 0.66 and not lists_only:
         return ["checkbox", rnd.choice(["x", "*", "ab", ""]), rnd.choice([None, "", "title", "a long title here"]), rnd.choice([None, "desc text", ""]), rnd.choice([True, False])]
     if r < 0.72 and not lists_only:
-        return ["window", rnd.choice([None, "", "Title", "a long title of the window"]), share_leaves(rnd, [gen_tree(rnd, depth - 1) for _ in range(rnd.randint(0, 3))])]
+        items = share_leaves(rnd, [gen_tree(rnd, depth - 1) for _ in range(rnd.randint(0, 3))])
+        # one widget object shown by the window itself and, further down, inside a container item of the same window (there at a narrower width)
+        for j, x in enumerate(items):
+            if x[0] in ("text", "entry") and rnd.random() < 0.3:
+                for c_ in items[j + 1:]:
+                    if c_[0] == "list" and c_[6] and not any(y[0] in ("ref", "upref") for y in c_[6]):
+                        c_[6][rnd.randrange(len(c_[6]))] = ["upref", j]; break
+                break
+        return ["window", rnd.choice([None, "", "Title", "a long title of the window"]), items]
     kp = rnd.choice([None, ["", ") ", 1], ["", ") ", 1], ["", ") ", rnd.choice([0, 5, 98, -2])], ["(", ")", 1]])
     items = [gen_tree(rnd, depth - 1) for _ in range(rnd.choice([0, 1, 2, 3, 4, 5, 7, 11]))]
     # (a numbered list renders every item first - at a width that depends on its label - and draws afterwards: one object in two cells is not two equal
@@ -59,7 +67,7 @@ def container_paths(spec, prefix=()):
     out = []
     kids = spec[2] if spec[0] == "window" else spec[6] if spec[0] == "list" else [spec[1]] if spec[0] == "center" else []
     for i, k in enumerate(kids):
-        if k[0] == "ref": continue
+        if k[0] in ("ref", "upref"): continue
         if k[0] in ("window", "list"): out.append(list(prefix) + [i])
         out += container_paths(k, tuple(prefix) + (i,))
     return out
